@@ -137,6 +137,12 @@ class Run:
             raise tlc.MachineryError('specification-level violation in %s/%s:\n%s' % (module, cfg, r.violation[:3000]))
         if tot['errors']:
             raise tlc.MachineryError('replay machinery error: %s' % tot['errors'][0])
+        if tot.get('drain_timed_out'):
+            kept = [d for d in tot['div'] if keep is None or keep(d) or d.get('kind') == 'timeout']
+            if not kept and self.tier == 'quick':
+                raise tlc.MachineryError('replay of %s/%s did not finish within 900 s after TLC (cases unusually slow) and '
+                                         'no divergence was found in what was replayed' % (module, cfg))
+            self.hang_seen = True          # later phases are skipped: the tree under test is far too slow
         self.states += r.distinct
         self.transitions += r.generated
         if tot.get('skipped_after_timeouts'):
